@@ -8,6 +8,15 @@ VERIF = os.path.dirname(os.path.dirname(os.path.abspath(__file__)))
 
 # property -> (category, technique, text, note, design_ref)
 CHECKS = {
+    'C19': ('exploration', 'integer brute-force lattice enumerator as reference model: multiset equality of enumerated couplings for '
+            'ALL displacement vectors of every generated lattice; round trips of the index maps; tagged-array placement',
+            'Lattices of every class (by reflection), ordering, boundary combination and MPS boundary are generated; for each, '
+            'possible_couplings / possible_multi_couplings for all |dx_a| <= Ls[a] and all (u1,u2) are compared with a harness '
+            'enumeration over integer coordinates (open: both inside, periodic: wrap incl. bc_shift, infinite: one '
+            'representative per translation class in the first unit cell), strengths with unique entries identify which '
+            'coupling got which value, pairs lists are compared with Euclidean distances, and mps2lat_values(_masked) with a '
+            'tagged array.',
+            'lat.order defines the snake; shifted boundaries only with a periodic first direction', 'DESIGN.md §C19'),
     'C16': ('exploration', 'recorded-matvec operator wrapper + dense eigh/eig/expm ground truth per solver run; N_cache sweeps and '
             'operator-reuse histories',
             'Every Krylov run (Lanczos ground state/evolution, Arnoldi, ArnoldiEvolution, GMRES, gram_schmidt, Flat operators, '
